@@ -138,12 +138,17 @@ def run_check(cd, tier, seed, write=True):
                          simulate=mr.simulate, dump_trace=True, tag=cd.pid)
         log('[tlc] %s %s: %d distinct / %d generated, depth %d, %.1fs%s' % (mr.module, mr.cfg, r.distinct, r.generated, r.depth, r.wall,
                                                                             (' VIOLATED ' + str(r.violated)) if r.violated else ''))
-        if r.error and not (mr.simulate and r.error == 'timeout'):
+        partial = r.error == 'timeout' and (mr.simulate or tier == 'thorough')
+        if r.error and not partial:
             raise Infra('TLC failed on %s/%s: %s\n%s' % (mr.module, mr.cfg, r.error, r.out[-3000:]))
+        if partial and not mr.simulate:
+            # thorough tier: a breadth-first run that does not finish within its time limit still checked every state it generated
+            res.notes.append('%s/%s: stopped by its time limit (%ds) after %d distinct states, no violation among them (not exhaustive)'
+                             % (mr.module, mr.cfg, mr.timeout, r.distinct))
         states += r.distinct
         transitions += r.generated
         model_notes.append({'module': mr.module, 'cfg': mr.cfg, 'distinct': r.distinct, 'generated': r.generated, 'depth': r.depth,
-                            'wall_s': round(r.wall, 1), 'note': mr.note, 'exhaustive': mr.simulate is None})
+                            'wall_s': round(r.wall, 1), 'note': mr.note, 'exhaustive': mr.simulate is None and not partial})
         if r.violated:
             # the specification of the code as read violates the property: only a real execution can convict
             res.notes.append('model %s/%s violates %s' % (mr.module, mr.cfg, r.violated))
